@@ -33,6 +33,9 @@ func encodeNumeric(content string, ecl ErrorCorrectionLevel) (*utils.BitList, *v
 		}
 
 		i, err := strconv.Atoi(curStr)
+		if err == nil && (curStr[0] == '+' || curStr[0] == '-') {
+			err = strconv.ErrSyntax // Atoi accepts a sign, numeric mode holds digits only
+		}
 		if err != nil || i < 0 {
 			return nil, nil, fmt.Errorf("\"%s\" can not be encoded as %s", content, Numeric)
 		}
